@@ -103,15 +103,20 @@ def tok3Loop (t : YYTab) (char : Int) : Nat → Int → Except YYFault Int
 def tok3Last (t : YYTab) : Except YYFault Int :=
   if t.tok3.size == 0 then .ok 0 else t.Tok3 (((t.tok3.size - 1) / 2 * 2 : Nat) : Int)
 
+def yylexTok3 (t : YYTab) (char : Int) : Except YYFault Int := do
+  let r ← tok3Loop t char t.tok3.size 0
+  if r != 0 then pure r else tok3Last t
+
+/-- the table lookup of `yylex1` -/
+def yylexTok (t : YYTab) (char : Int) : Except YYFault Int :=
+  if char ≤ 0 then t.Tok1 0
+  else if char < t.tok1.size then t.Tok1 char
+  else if char ≥ t.priv ∧ char < (t.priv : Int) + t.tok2.size then t.Tok2 (char - t.priv)
+  else yylexTok3 t char
+
 /-- `yylex1`: external token number (`char`) to internal (`token`) -/
 def yylex1 (t : YYTab) (char : Int) : Except YYFault Int := do
-  let tk ←
-    if char ≤ 0 then t.Tok1 0
-    else if char < t.tok1.size then t.Tok1 char
-    else if char ≥ t.priv ∧ char < (t.priv : Int) + t.tok2.size then t.Tok2 (char - t.priv)
-    else do
-      let r ← tok3Loop t char t.tok3.size 0
-      if r != 0 then pure r else tok3Last t
+  let tk ← yylexTok t char
   if tk == 0 then t.Tok2 1 else pure tk
 
 /-- events of a run, in the vocabulary of goyacc's own debug output -/
